@@ -1099,7 +1099,7 @@ pub fn lwe_cases<B: Bk>(tier: Tier) -> Vec<LweCase> {
                             let k_key = ((dnum.max(a_conv) + 1) * b_key + 1).max((dnum.max(2)) * b_key);
                             let eq = (a_size * b_in).div_ceil(b_out);
                             for res_size in [eq.saturating_sub(1).max(1), eq, eq + 1] {
-                                for (n_in, n_out) in [(n, n), (n / 2, n - 1), (1, n / 2)] {
+                                for (n_in, n_out) in [(n, n), (n / 2, n - 1), (1, n / 2), (n - 1, n / 2)] {
                                     if !tier.is_thorough() && (n_in, n_out) == (1, n / 2) && rank > 1 {
                                         continue;
                                     }
